@@ -363,6 +363,41 @@ func run(w *core.Worker, c Case) {
 			if got := gogu.Compare(a, b, gt); got != -want {
 				fail("Compare", "Compare(%d,%d,>)=%d want %d", a, b, got, -want)
 			}
+			// comparators whose equivalence is coarser than ==: the result must reflect the
+			// comparator alone (0 exactly when neither argument precedes the other)
+			for kn, key := range map[string]func(int) int{"abs": func(x int) int {
+				if x < 0 {
+					return -x
+				}
+				return x
+			}, "half": func(x int) int { return (x + 8) / 2 }, "const": func(int) int { return 0 }} {
+				kw := 0
+				if key(a) < key(b) {
+					kw = 1
+				} else if key(b) < key(a) {
+					kw = -1
+				}
+				if got := gogu.Compare(a, b, func(x, y int) bool { return key(x) < key(y) }); got != kw {
+					fail("Compare-by-key", "Compare(%d,%d, by %s ascending)=%d want %d", a, b, kn, got, kw)
+				}
+				if got := gogu.Compare(a, b, func(x, y int) bool { return key(x) > key(y) }); got != -kw {
+					fail("Compare-by-key", "Compare(%d,%d, by %s descending)=%d want %d", a, b, kn, got, -kw)
+				}
+			}
+			type rec struct {
+				K  int
+				ID string
+			}
+			ra, rb := rec{a / 2, "x"}, rec{b / 2, fmt.Sprint("y", b)}
+			rw := 0
+			if ra.K < rb.K {
+				rw = 1
+			} else if rb.K < ra.K {
+				rw = -1
+			}
+			if got := gogu.Compare(ra, rb, func(x, y rec) bool { return x.K < y.K }); got != rw {
+				fail("Compare-by-key", "Compare(%+v,%+v, by field K)=%d want %d", ra, rb, got, rw)
+			}
 			if got := gogu.Less(a, b); got != (a < b) {
 				fail("Less", "Less(%d,%d)=%v", a, b, got)
 			}
@@ -445,7 +480,7 @@ func allSlices(vals []int, maxLen int) [][]int {
 func TestProp(t *testing.T) {
 	r := core.Start(t, "C13")
 	defer r.Finish()
-	r.Rule("cases = one call group of a search/selection/aggregate/numeric helper checked against its definition: IndexOf/LastIndexOf/Contains, FindIndex/FindLastIndex/FindAll/Some/Every (4 predicates), FindMin/FindMax/Min/Max/Sum/SumBy/Mean (int and float64), FindMinBy/FindMaxBy (first extremal element, 4 key functions with ties), FindMinByKey/FindMaxByKey over map slices with/without the key, Nth over an index window, Abs/Clamp/InRange on all of int8, Compare/Less/Equal, Range/RangeRight against the reference progression; non-trivial = input of >= 2 elements resp. a proper match/progression; distinct by hash of the case")
+	r.Rule("cases = one call group of a search/selection/aggregate/numeric helper checked against its definition: IndexOf/LastIndexOf/Contains, FindIndex/FindLastIndex/FindAll/Some/Every (4 predicates), FindMin/FindMax/Min/Max/Sum/SumBy/Mean (int and float64), FindMinBy/FindMaxBy (first extremal element, 4 key functions with ties), FindMinByKey/FindMaxByKey over map slices with/without the key, Nth over an index window, Abs/Clamp/InRange on all of int8, Compare (plain and by-key comparators with ties between unequal values, struct elements)/Less/Equal, Range/RangeRight against the reference progression; non-trivial = input of >= 2 elements resp. a proper match/progression; distinct by hash of the case")
 
 	L := r.Pick(5, 6)
 	core.Monitor(r, "def-sweep", 0, func(emit func(Case)) {
